@@ -192,9 +192,21 @@ class SSH_Socket(ReadBuf, WriteBuf):
             if s < 0:
                 continue
             while self.unread_len > 0:
+                # If the data received so far ends in an incomplete line (i.e.: the banner was split across TCP segments), wait for the rest of it to arrive.
+                if not self.has_unread_line():
+                    break
                 line = self.read_line()
                 if len(line.strip()) == 0:
                     continue
+                self.__banner = Banner.parse(line)
+                if self.__banner is not None:
+                    return self.__banner, self.__header, None
+                self.__header.append(line)
+
+        # The peer stopped sending (or closed the connection) in the middle of a line.  Handle what we have as the last line.
+        if self.unread_len > 0:
+            line = self.read_line()
+            if len(line.strip()) > 0:
                 self.__banner = Banner.parse(line)
                 if self.__banner is not None:
                     return self.__banner, self.__header, None
